@@ -28,7 +28,12 @@
 (*   <<"float", "num", [s, m, e], sexa>>  <<"float", "inf", sign>>         *)
 (*   <<"float", "nan">>                                                    *)
 (*   <<"date", y, m, d>>                                                   *)
-(*   <<"datetime", y, m, d, H, M, S, fraction-digits, tz>>                 *)
+(*   <<"datetime", y, m, d, H, M, S, microseconds, tz>>                    *)
+(*        microseconds = the first six digits of the fraction (Micro): a   *)
+(*        fraction may have any number of digits, the constructed value    *)
+(*        has microsecond resolution, digits beyond the sixth are dropped, *)
+(*        never rounded (rounding could move the value past the instant    *)
+(*        the text denotes, up to a second that does not exist)            *)
 (*        tz = <<"none">> | <<"utc">> | <<"off", sign, hours, minutes>>    *)
 (*   <<"merge">>  <<"value">>  <<"str">> (the text itself)                 *)
 (*   <<"undefined", type, why>> : the lexical description of `type` fits   *)
@@ -227,6 +232,9 @@ DT(s) ==   \* the cut points of a date-time, ok = the text has the lexical struc
 IsDateTime(s) == DT(s).ok
 IsTimestamp(s) == IsDate(s) \/ IsDateTime(s)
 
+\* microseconds of a fraction (digit values): six digits, padded with zeros, the rest dropped
+Micro(fr) == NatOf(IF Len(fr) >= 6 THEN SubSeq(fr, 1, 6) ELSE fr \o [i \in 1 .. 6 - Len(fr) |-> 0])
+
 Leap(y) == (y % 4 = 0 /\ y % 100 # 0) \/ y % 400 = 0
 DaysIn(y, m) == IF m = 2 THEN (IF Leap(y) THEN 29 ELSE 28) ELSE IF m \in {4, 6, 9, 11} THEN 30 ELSE 31
 N(ds) == NatOf(Vals(ds))
@@ -246,7 +254,7 @@ TimestampValue(s) ==
            tz == CASE t.tzform = "none" -> <<"none">> [] t.tzform = "utc" -> <<"utc">>
                    [] OTHER -> <<"off", t.tzsign, zh, zm>>
        IN  IF why # "" THEN <<"undefined", "timestamp", why>>
-           ELSE <<"datetime", y, m, d, h, mi, se, Vals(t.fr), tz>>
+           ELSE <<"datetime", y, m, d, h, mi, se, Micro(Vals(t.fr)), tz>>
 
 (***************************************************************************)
 (* the repository                                                          *)
